@@ -21,7 +21,7 @@ func XMultiSameMethod() *spec.Spec {
 
 // Extended returns the extended families (everything beyond the documented core combinations).
 func Extended(thorough bool) []*spec.Spec {
-	out := []*spec.Spec{XMultiSameMethod(), XCrossFile(), XTwoServiceFiles(), XTimestampCards(), XTimestampCardsFmt(), XEmptyOrders(), XOneofSiblings(), XSharedMethodHeader(), XQuotedHeaderTexts(), XQuotedAnnotationValues(), XForeignResponse(), XSameNamedNestedEnums(), XOneofVariantShapes()}
+	out := []*spec.Spec{XMultiSameMethod(), XCrossFile(), XTwoServiceFiles(), XTimestampCards(), XTimestampCardsFmt(), XEmptyOrders(), XOneofSiblings(), XSharedMethodHeader(), XQuotedHeaderTexts(), XQuotedAnnotationValues(), XForeignResponse(), XSameNamedNestedEnums(), XOneofVariantShapes(), XInt64Cards()}
 	out = append(out, CtxSpecs()...)
 	out = append(out, RouteSpecs(thorough)...)
 	out = append(out, BindSpecs(thorough)...)
@@ -293,4 +293,18 @@ func XOneofVariantShapes() *spec.Spec {
 		spec.M("PlainShapes", members()...).WithOneof(&spec.Oneof{Name: "shape"}),
 	), Services: []*spec.Service{EchoService("VariantShapeService", "FlatShapes", "NestedShapes", "PlainShapes")}}
 	return withCell(spec.One("x_oneof_variant_shapes", f), "ext/unit=oneof_variant_shapes", "extended", "valid", "codec")
+}
+
+// XInt64Cards: int64_encoding NUMBER on every cardinality a 64-bit field can have: singular, proto3 optional, repeated, member of a
+// real oneof - for a signed and an unsigned kind, beside unannotated fields of the same cardinalities.
+func XInt64Cards() *spec.Spec {
+	var fs, members []*spec.Field
+	for _, k := range []string{"int64", "uint64"} {
+		fs = append(fs, spec.F(k+"_one", k).I64(spec.EncNumber), spec.F(k+"_opt", k).I64(spec.EncNumber).Opt(), spec.F(k+"_many", k).I64(spec.EncNumber).Rep(), spec.F(k+"_plain_opt", k).Opt())
+		members = append(members, spec.F(k+"_pick", k).I64(spec.EncNumber).In("choice"))
+	}
+	fs = append(append(fs, members...), spec.F("label", "string").In("choice"))
+	f := &spec.File{Messages: []*spec.Message{spec.M("Int64Cards", fs...).WithOneof(&spec.Oneof{Name: "choice"})},
+		Services: []*spec.Service{EchoService("Int64CardService", "Int64Cards")}}
+	return withCell(spec.One("x_int64_cards", f), "ext/unit=int64_cards", "extended", "valid", "codec")
 }
